@@ -45,6 +45,8 @@ class RunnerProxy(object):
               "control": CONTROL.get(control, control), "caller": "sweep" if st.get("sweep") else "run",
               "stamp": self.tasker.store.stamp, "depth": st["depth"], "seq": len(recorder.TRACE)}
         self.log.append(ev)
+        if st.get("presnap"):
+            ev["pre"] = st["presnap"]()      # watched shares as they are when the control arrives
         st["depth"] += 1
         try:
             status = self.gen.send(control)
@@ -157,6 +159,7 @@ def run_text(text, period=0.125, maxticks=64, watch=(), boom=None, build_only=Fa
     res.trace = recorder.TRACE
 
     state["post"] = (lambda: {fr.name: framer_snapshot(fr) for fr in house0.framers}) if post else None
+    state["presnap"] = (lambda: recorder.snapshot(house0.store)) if (watch and post) else None
 
     def snap(house):
         return {"tick": state["tick"], "stamp": house.store.stamp, "seq": len(recorder.TRACE),
